@@ -303,6 +303,18 @@ def r6_demand_driven_seq_functions(ctx):
                     uses = [x for x in L.walk(b) if L.head(x) in ("first", "rest", "next") and len(x.items) == 2 and L.is_sym(x.items[1], p)]
                     if uses:
                         problems.append(f"`{p}` is tested with (seq {p}) but then walked raw (`{uses[0].text()}`): a non-seq iterable is coerced again for every access")
+            # the same one level up: a collection of collections tested with (every? seq colls) must be
+            # walked through those seqs ((map seq colls) bound first), not through the raw members
+            for b in body:
+                for x in L.walk(b):
+                    if L.head(x) in ("every?", "some", "not-any?", "not-every?") and len(x.items) == 3 and L.is_sym(x.items[1], "seq") and isinstance(x.items[2], L.Sym):
+                        cs = x.items[2].val
+                        scope = x.parent
+                        while scope is not None and L.head(scope) not in ("lazy-seq", "fn", "fn*", "let", "loop", "defn"):
+                            scope = scope.parent
+                        raw = [u for u in L.walk(scope or b) if L.head(u) == "map" and len(u.items) == 3 and L.is_sym(u.items[2], cs) and isinstance(u.items[1], L.Sym) and u.items[1].val in ("first", "rest", "next")]
+                        if raw:
+                            problems.append(f"the members of `{cs}` are tested with (every? seq {cs}) but walked raw (`{raw[0].text()}`): each non-seq member is coerced again for every access, so its producer runs more than once per element")
         ctx.ob("C06.R6", f"{CORE}::{name}::demand-driven", CORE, d.line, not problems, "; ".join(problems[:2]))
 
 
